@@ -949,6 +949,8 @@ class Note:
 
 
     def to_extension_note(self, chord):
+        if self.accident is not None:
+            return self.copy()  # an accidental overrides the scale degree: not the bass tone it is written on
         candidates = chord.extension_notes
         candidates_without_octave = [c.o(-c.octave) for c in candidates]
         try:
@@ -963,6 +965,8 @@ class Note:
             return self.copy()
 
     def to_chord_note(self, chord):
+        if self.accident is not None:
+            return self.copy()  # an accidental overrides the scale degree: not the chord tone it is written on
         candidates = chord.chord_notes
         candidates_without_octave = [c.o(-c.octave) for c in candidates]
         try:
